@@ -4,6 +4,26 @@ import json, os, sys
 sys.path.insert(0, os.path.join(os.path.dirname(os.path.abspath(__file__)), "..", "lib"))
 V = "/verif"
 CHECKS = {
+ "C01": dict(engine="rapidcheck", technique="property-based testing (rapidcheck): generated mesh/point-cloud x option specs, encode->decode round trip against a reference model (bit-exact reference quantizer, canonical triangle multiset)",
+   text="Generated-input search over geometry specs (topology classes incl. non-manifold / degenerate / duplicated / mirrored faces, seams, isolated points, 1..5 attributes of every data type and 1..8 components, identity and explicit maps, arbitrary unique ids) crossed with option specs (both encoder APIs, method, Edgebreaker sub-method, speeds 0..10, quantization 1..26 bits auto or explicit, forced prediction schemes, built-in compression, split-on-seams, compressed connectivity). Oracle: encode ok => decode ok; attribute set equal by unique id; sequential methods: point-by-point and face-by-face equality; kd-tree: point multiset; Edgebreaker: T_in minus degenerate <= T_dec <= T_in as multisets of oriented triangles with per-corner value keys; lossy values must be bit-equal to the harness's own float32 reference quantizer. ASan+UBSan on. Exploration: no claim beyond the generated cases.",
+   note="Trusts rapidcheck, the sanitizer runtimes and OctahedronToolBox for the expected octahedral value (its accuracy is C07's business). Open known findings are excluded by construction and counted; cost caps (26 quantization bits, 2^21 integer magnitudes at quick tier) are listed in the evidence.",
+   design="3/C01"),
+ "C04": dict(engine="rapidcheck", technique="property-based testing (rapidcheck): per-value error bound |x'-x| <= step/2 + 8 half-ulps through a tag attribute, all coding methods",
+   text="Every case carries >= 1 quantized float32 attribute (1..8 components, magnitudes 1e-6..1e9 with offsets, constant components, auto or explicit box, q up to 26) and a uint32 tag attribute that gives the input<->decoded correspondence under reordering methods. Oracle per decoded component: error <= half a step of the reference range plus the stated float32 allowance, value inside the box up to the allowance, and the declared parameters (read through the skip-transform decode) equal to the reference min/range/bits.",
+   note="The allowance 8*2^-24*max(|x|,|min|,R) is derived in DESIGN.md; q 27..30 are reached only at transform level (see C04 evidence classes) because the entropy coder's cost grows with 2^q.",
+   design="3/C04"),
+ "C09": dict(engine="rapidcheck", technique="property-based testing (rapidcheck): reported num_encoded_points/faces compared with the decoded geometry",
+   text="C01's generator weighted towards attribute seams on interior and boundary vertices, non-manifold vertices and edges, degenerate faces, isolated points, with tracking on, both encoder APIs, every method; oracle: reported counts == counts of the decoded geometry.",
+   note="Known finding F12 (duplicate point ids) is excluded by construction while open.",
+   design="3/C09"),
+ "C10": dict(engine="rapidcheck", technique="property-based testing (rapidcheck): differential decode (ordinary vs skip-transform subsets) + described transform re-applied + reference dequantizer",
+   text="Streams with >= 1 quantized attribute from the shared generator, all methods; each decoded normally and with the generated skip subset, the full subset and each single lossy type (thorough: all 32). Oracle: connectivity / point count / non-skipped attributes bit-identical; skipped transformed attributes keep their unique id, are integral, carry a transform description whose parameters equal the reference ones, and both the library's InverseTransformAttribute and the harness's own dequantizer reproduce the ordinary decode bit-exactly.",
+   note="A plain integer attribute of a skipped type is handed out as its int32 working copy by the decoders; the check requires equal integers, id and no transform description for it (see DESIGN.md C10).",
+   design="3/C10"),
+ "C12": dict(engine="rapidcheck", technique="property-based testing (rapidcheck): metamorphic pair of separately encoded geometries sharing coordinates under one explicit quantization box",
+   text="Pairs (A,B): A from the shared generator with one explicitly quantized float attribute, B an independently generated mesh or point cloud containing a subset of A's coordinates plus private ones inside the same box, encoded with independent method, speed, API and prediction. Oracle: every shared coordinate decodes to bit-identical floats on both sides, lies on the grid origin + k*range/(2^bits-1) and within half a step of the original.",
+   note="Explicit parameters are fixed points of the options layer's text round trip (the API stores floats with 6 decimals); see DESIGN.md.",
+   design="3/C12"),
  "C08": dict(engine="rapidcheck", technique="property-based testing (rapidcheck): encode->decode round trip + consumed-size oracle over generated symbol arrays",
    text="Generated-input search: 16 rapidcheck shards draw symbol arrays over length / component / distribution / magnitude / forced-scheme / compression-level classes, encode them with EncodeSymbols, and require an exact decode, decoded_size == encoded size, a second back-to-back block and a random tail found at the right offset; ASan+UBSan stay on. Exploration, not proof: it shows absence of violations on the generated cases only.",
    note="Trusts rapidcheck's generators/shrinker and the sanitizer runtimes. Magnitudes above 2^22 (quick) / 2^27 (thorough) are capped because the encoder allocates O(max value) counters; lengths up to 5000 (quick) / 1e5 (thorough).",
